@@ -890,6 +890,9 @@ func (e *Engine) evalCall(env *Env, n *ast.CallExpr) (Val, types.Type) {
 			e.specErr("at: label %s was not reached before this point", id.Name)
 			return Sc{"0"}, tInt
 		}
+		for name := range env.bound {
+			le = le.with(name, env.vars[name]) // quantified variables of the enclosing clause stay visible
+		}
 		return e.eval(le, n.Args[1])
 	case "streamByte": // streamByte(r, i): the byte source r delivers at absolute position i of its current stream
 		if !need(2) {
@@ -901,6 +904,18 @@ func (e *Engine) evalCall(env *Env, n *ast.CallExpr) (Val, types.Type) {
 	case "faulted": // faulted(): some source read so far returned an error other than EOF / unexpected EOF
 		flt := e.comp(env.heap, "G.rd_fault", "Bool", false)
 		return Sc{fmt.Sprintf("(select %s 0)", flt)}, tBool
+	case "crcOfBytes": // crcOfBytes(s): CRC-32 (IEEE) of the current contents of byte slice s
+		if !need(1) {
+			return Sc{"0"}, tInt
+		}
+		v, _ := arg(0)
+		sv, ok := v.(SliceV)
+		if !ok {
+			e.specErr("crcOfBytes: argument must be a byte slice")
+			return Sc{"0"}, tInt
+		}
+		arr := e.comp(env.heap, "E.uint8", "Int", true)
+		return Sc{fmt.Sprintf("(crcarr (select %s %s) %s %s)", arr, sv.B, sv.O, sv.L)}, types.Typ[types.Uint32]
 	case "slid": // slid(s): identity of the byte range a slice designates (backing array, offset, length)
 		if !need(1) {
 			return Sc{"0"}, tInt
